@@ -6,6 +6,14 @@ package utreexo
 // Optional overlay file (names the unexported mutex field); without it such findings cannot be replayed
 // and are reported as inconclusive.
 func init() {
+	// c12LockLoop: takes and releases the write lock until told to stop, counting acquisitions
+	c12LockLoop = func(m *MapPollard, stop func() bool, acquired func()) {
+		for !stop() {
+			m.rwLock.Lock()
+			acquired()
+			m.rwLock.Unlock()
+		}
+	}
 	c12Hammer = func(m *MapPollard) {
 		for i := 0; i < 2000; i++ {
 			m.rwLock.Lock()
